@@ -14,6 +14,7 @@ THEOREMS = [
     ("EG.props.C11", "C11_unchanged_apply_noop"),
     ("EG.props.C11", "C11_other_objects_untouched"),
     ("EG.props.C11", "C11_update_never_unavailable"),
+    ("EG.props.C11", "C11_hot_update_no_restart"),
 ]
 _HOOKS = {"pkg/util/ratelimiter/zz_verif_c11_hook.go": "harness/pipeline/zz_verif_c11_hook_rl.go",
           "pkg/filters/proxy/zz_verif_c11_hook.go": "harness/pipeline/zz_verif_c11_hook_proxy.go"}
@@ -23,18 +24,21 @@ HARNESSES = [
     dict(name="tc", pkg="pkg/object/trafficcontroller", files=["harness/trafficcontroller/zz_verif_c11_test.go"],
          run="TestVerifC11TC", groups=["tc"], timeout=300, share=0.2),
     dict(name="mux", pkg="pkg/object/httpserver", files=["harness/httpserver/zz_verif_c11_test.go"],
-         run="TestVerifC11Mux", groups=["sched", "conc"], timeout=900, share=0.3, race=True),
+         run="TestVerifC11Mux", groups=["sched", "conc", "restart"], timeout=900, share=0.3, race=True),
 ]
 GROUPS = {"rlf": "(check_rlf pinned)", "inh": "(check_inh pinned)", "pipe": "(check_pipe pinned)",
-          "tc": "(check_tc pinned)", "sched": "(check_sched pinned)", "conc": "(check_conc pinned)"}
+          "tc": "(check_tc pinned)", "sched": "(check_sched pinned)", "conc": "(check_conc pinned)", "restart": "(check_restart pinned)"}
 EXPLAIN = {"rlf": "explain_rlf pinned", "inh": "explain_inh", "pipe": "explain_pipe pinned",
-           "tc": "explain_tc", "sched": "explain_sched", "conc": "explain_conc"}
+           "tc": "explain_tc", "sched": "explain_sched", "conc": "explain_conc", "restart": "explain_restart"}
 CASES = {"quick": 900, "thorough": 6000}
 RULE = ("cases: rlf = RateLimiter filter Init/Inherit/Handle histories incl. requests on superseded generations; "
         "inh = the same for 13 further filter kinds with a never-inherited twin; pipe = Pipeline.Init/Inherit/Handle with "
         "lifecycle-recording + real filters incl. kind changes; tc = TrafficController op sequences over 2 namespaces; "
         "sched = one request with reloads placed inside it (before load / in GetHandler / in body read / in handler / after); "
-        "conc = concurrent clients vs reloads. non-trivial = case ran (spec accepted); class bits: rlf +1 inherit +2 limited "
+        "conc = concurrent clients vs reloads (both incl. generation pairs with identical rules, cacheSize>0, server-/path-level "
+        "ipFilters, a warm cache and a second client identity); tc ops also record the view from INSIDE every lifecycle "
+        "callback; restart = runtime.needRestartServer/reload over spec pairs (hot-only vs listener-relevant changes), one in "
+        "four with a real keep-alive connection on a loopback port held across the reload. non-trivial = case ran (spec accepted); class bits: rlf +1 inherit +2 limited "
         "+4 superseded generation handled a matching request; inh +1 superseded handled +2 closed handled +4*kind; pipe +1 "
         "superseded handled +2 closes +4 inherits; tc +1 no-op apply +2 inherit +4 close; sched +1 served by a superseded "
         "generation +2 reload inside the request +4 status 200; conc +1 two generations' answers seen during reloads; "
@@ -65,7 +69,7 @@ MANIFEST = dict(
                 "code on every run by differential correspondence incl. reloads placed inside a live request."),
     level_note=("Trusted: Coq kernel + vm_compute; hand-written model validated only on sampled histories/schedules; step "
                 "granularity of serveHTTP validated by the scheduled and concurrent harnesses, not proved about Go; runtime "
-                "(HTTP server restart on port/TLS change), MQTT/Kafka/Wasm/HeaderLookup/RemoteFilter kinds not covered."),
+                "(HTTPS/HTTP3/certificate changes of the listener), MQTT/Kafka/Wasm/HeaderLookup/RemoteFilter kinds not covered."),
     technique="Coq proof (invariants over labelled transition systems and op histories) + model/implementation correspondence by vm_compute",
 )
 
@@ -252,6 +256,21 @@ def _enc_conc(i, o):
                cc_expect=L([L([_resp(t) for t in row]) for row in o["expect"]]), cc_bad=B(False))
 
 
+def _rtspec(s):
+    return Rec(rs_listen=Rec(rl_port=Z(1 if s["portAlt"] else 0), rl_keepalive=B(s["keepAlive"]), rl_katimeout=S(s["kaTimeout"]),
+                             rl_maxbody=Z(s["maxBody"]), rl_globalfilter=S(s["globalFilter"])),
+               rs_hot=Rec(rh_rules=S(s["rulesTag"] + ("+pathfilter" if s["pathBlock"] else "")),
+                          rh_ipfilter=L([S(x) for x in s.get("block") or []]), rh_xff=B(s["xff"]), rh_cache=Z(s["cache"]),
+                          rh_maxconn=Z(s["maxConn"])))
+
+
+def _enc_restart(i, o):
+    live = {"": 0, "reused": 1, "newconn": 2, "failed": 3}.get(o.get("live", ""), None)
+    bad = bool(o.get("bad")) or live is None          # "skipped": the loopback listener could not be used
+    return Rec(rc_old=_rtspec(i["old"]), rc_new=_rtspec(i["new"]), rc_need=B(o.get("need", False)), rc_delta=Z(o.get("startDelta", 0)),
+               rc_live=Z(live or 0), rc_rbad=B(bad))
+
+
 def encode(c):
     i, o, g = c["in"], c["obs"], c["grp"]
     if g == "rlf":
@@ -266,6 +285,8 @@ def encode(c):
         return _enc_sched(i, o)
     if g == "conc":
         return _enc_conc(i, o)
+    if g == "restart":
+        return _enc_restart(i, o)
     raise ValueError(g)
 
 
